@@ -183,6 +183,8 @@ func runC06(r *Run) {
 			r.Check(len(bound) > 0 && a.EveryPathTakes(in, bound) && a.sh.Of(up.Key).String() == "rk(p0)", "C06.1", "tmi.newVoteDistribution(per-target)", w.InstrPos(in), "per-target power keyed by the target hash with a range-checked validator index")
 		})
 	}
+	r.Rule("C06.6", "reset completeness: the kernel recycles view objects across rounds (voting/next-round swap), so Reset / ResetForSameHeight of VoteSummary, RoundView and VersionedRoundView clear every field (per-target powers and most-voted hashes included) except the height-scoped ones the same-height variants document as kept; a stale per-target power with empty proofs is a summary that does not equal its recomputation")
+	resetCompleteness(r, "C06.6")
 	r.Expect("C06.1", 9, "summary computation obligations")
 
 	recomputeAfterMutation(r, "C06.3", []string{"recompute"})
